@@ -62,6 +62,7 @@ func main() {
 		c.Floor("suppressed_decisively_inside", int64(n)/10/sh, c.Counter("suppressed_decisively_inside"))
 		c.Floor("repeats_logged_outside_interval", int64(n)/10/sh, c.Counter("repeats_logged_outside_interval"))
 		c.Floor("calls_below_level", int64(n)/sh, c.Counter("calls_below_level"))
+		c.Floor("scenarios_with_id_volume", int64(n)/20/sh, c.Counter("scenarios_with_id_volume"))
 
 		n = c.N(200, 3200)
 		secMultiLogger(c, n)
@@ -157,9 +158,82 @@ func secLinesSingle(c *vlib.Ctx, n int) {
 			}
 			return -1
 		}
-		for k := 0; k < nCalls; k++ {
-			ep, id := pickEPandID(r, ten, other)
+		// one call: bracket the virtual clock, invoke, remember when the id was last written
+		do := func(k, ep int, id string) {
 			cl := buildCall(r, 0, k, ep, id)
+			if k == setLevelAt {
+				s.level = r.Intn(4)
+				s.fl.SetLevel(rankConst[s.level])
+				c.Count("set_level_calls", 1)
+			}
+			cl.Lvl = s.level
+			before := size()
+			cl.B = vnow()
+			cl.invoke(s.fl)
+			cl.A = vnow()
+			if size() > before && epLimited[ep] {
+				lastT[id] = cl.A
+			}
+			calls = append(calls, cl)
+			c.SetAdd("entry_points_called", epName[ep])
+		}
+		// Id volume (added after seeded change C17r6-2: the table of last-logged times lost ids
+		// with a negative hash when it grew): in a quarter of the scenarios every id of the
+		// pool is logged once, then 60…900 further distinct ids are logged once each — the
+		// logger's table (bounded at 1000 ids, never reached here) grows through its 76/153/
+		// 307/614-entry thresholds with the pool's ids already in it — and only then does the
+		// main loop repeat the pool's ids inside and outside the interval.
+		k0 := 0
+		if r.Chance(1, 4) {
+			volume := pickInt(r, 60, 90, 170, 330, 650, 900)
+			limited := []int{}
+			for e := 0; e < nEP; e++ {
+				if epLimited[e] {
+					limited = append(limited, e)
+				}
+			}
+			once := func(id string, explicit bool) {
+				ep := limited[r.Intn(len(limited))]
+				if explicit {
+					ep = pickInt(r, epPrintln, epPrintf)
+				}
+				do(k0, ep, id)
+				k0++
+				if r.Chance(1, 8) {
+					advanceTo(vnow() + int64(r.Range(1, 20)))
+				}
+			}
+			for _, id := range ten {
+				once(id, false)
+			}
+			for _, id := range other {
+				once(id, true)
+			}
+			have := map[string]bool{}
+			for _, id := range ten {
+				have[id] = true
+			}
+			fill, _ := idPool(r, volume, 0)
+			distinct := len(ten) + len(other)
+			for _, id := range fill {
+				if !have[id] {
+					have[id] = true
+					once(id, false)
+					distinct++
+				}
+			}
+			// some of the filler ids join the pool that is repeated
+			for j := 0; j < 3; j++ {
+				ten = append(ten, fill[r.Intn(len(fill))])
+			}
+			c.Count("scenarios_with_id_volume", 1)
+			c.Max("max_distinct_ids_on_one_logger", int64(distinct))
+			if setLevelAt >= 0 {
+				setLevelAt += k0
+			}
+		}
+		for k := k0; k < k0+nCalls; k++ {
+			ep, id := pickEPandID(r, ten, other)
 			// step the virtual clock, aimed at the edge of this id's interval
 			lt, seen := lastT[id]
 			var target int64
@@ -177,21 +251,7 @@ func secLinesSingle(c *vlib.Ctx, n int) {
 			if target > 0 && target < limit {
 				advanceTo(target)
 			}
-			if k == setLevelAt {
-				s.level = r.Intn(4)
-				s.fl.SetLevel(rankConst[s.level])
-				c.Count("set_level_calls", 1)
-			}
-			cl.Lvl = s.level
-			before := size()
-			cl.B = vnow()
-			cl.invoke(s.fl)
-			cl.A = vnow()
-			if size() > before && epLimited[ep] {
-				lastT[id] = cl.A
-			}
-			calls = append(calls, cl)
-			c.SetAdd("entry_points_called", epName[ep])
+			do(k, ep, id)
 		}
 		if dayOf(vnow()) != day {
 			c.Inconclusive(fmt.Sprintf("lines-single#%d", i), "virtual day changed while the scenario ran")
